@@ -1700,6 +1700,13 @@ func (db *DB) Dump(w io.Writer, tableNames ...string) error {
 	defer conn.Close()
 	ctx := context.Background()
 
+	// Run every query below inside one read transaction, so that the dump is of the
+	// database as it was at a single point in time, even if writes are taking place.
+	if _, err := conn.ExecContext(ctx, "BEGIN"); err != nil {
+		return err
+	}
+	defer conn.ExecContext(ctx, "ROLLBACK")
+
 	// Convenience function to convert string query to protobuf.
 	commReq := func(query string) *command.Request {
 		return &command.Request{
